@@ -1,7 +1,9 @@
 """Registry: which solver queries decide which property, at which tier, with which bound."""
 
+GUARD = "--cfg greatest_ape_aquatic_verif"
 CRATES = {
     "kani-udp-proto": {"kani_args": ["-Z", "stubbing"]},
+    "kani-common": {"kani_args": ["-Z", "stubbing"], "rustflags": GUARD},
 }
 
 
@@ -12,6 +14,7 @@ def H(crate, name, claim, bound, functions=(), tier="quick", cost=10, **kw):
 
 
 UP = "kani-udp-proto"
+KC = "kani-common"
 
 PROPS = {}
 
@@ -48,6 +51,51 @@ PROPS["C13"] = {
         H(UP, "c13::c13_scrape_response_n3", "scrape reply: 8+12n bytes == BEP15 (seeders, completed, leechers); parses back equal", "3 entries", ["ScrapeResponse::write_bytes", "Response::parse_bytes"]),
         H(UP, "c13::c13_error_response_encode_a", "error reply: action 3, transaction id, message bytes", "one fixed message, all ids", ["ErrorResponse::write_bytes"]),
         H(UP, "c13::c13_error_response_encode_b", "error reply: action 3, transaction id, message bytes", "one fixed message, all ids", ["ErrorResponse::write_bytes"]),
+    ],
+}
+
+PROPS["C03"] = {
+    "level": "model_checking",
+    "functions": ["aquatic_common::CanonicalSocketAddr::{new,get,get_ipv4,get_ipv6_mapped,is_ipv4}"],
+    "bounds": "all 2^48 IPv4 socket addresses; all IPv6 socket addresses (16 octets, port, flowinfo, scope id) - full width, no size bound",
+    "outside": "socket syscalls (recv_from / peer_addr) that produce the SocketAddr; glommio connection.rs glue",
+    "models": [],
+    "assumptions": ["Kani models the dev profile (overflow checks on)"],
+    "harnesses": [
+        H(KC, "c03::c03_canonical_v4_identity", "IPv4 source stored unchanged; its v4-mapped v6 form canonicalises to the same peer", "all IPv4 addr+port", ["CanonicalSocketAddr::new", "get_ipv6_mapped"]),
+        H(KC, "c03::c03_canonical_v6_total", "v6 source becomes v4 exactly when it is ::ffff:a.b.c.d, with embedded octets and port; otherwise unchanged", "all IPv6 addr+port+flow+scope", ["CanonicalSocketAddr::new"]),
+    ],
+}
+
+PROPS["C10"] = {
+    "level": "model_checking",
+    "functions": ["aquatic_common::ValidUntil::{new,new_with_now,new_raw,valid}", "ServerStartInstant::seconds_elapsed (mock clock hook)"],
+    "bounds": "all u32 now / age / check time with now+age <= u32::MAX (the overflow region is outside)",
+    "outside": "now+age > u32::MAX (debug panic / release wrap); how often workers sample the clock",
+    "models": ["ServerStartInstant::seconds_elapsed -> harness-chosen whole second or monotonicity error (hook in crates/common/src/lib.rs)"],
+    "assumptions": ["the tracker clock is a whole-second counter"],
+    "harnesses": [
+        H(KC, "c10::c10_valid_until_kernel", "valid(t) <=> now+age > t; valid at deadline-1, expired at deadline", "all u32 triples without overflow", ["ValidUntil::new_with_now", "ValidUntil::valid"]),
+        H(KC, "c10::c10_valid_until_raw", "valid(t) <=> deadline > t", "all u32 pairs", ["ValidUntil::new_raw", "ValidUntil::valid"]),
+        H(KC, "c10::c10_valid_until_from_clock", "ValidUntil::new = clock sample + age; None exactly on clock error", "all u32", ["ValidUntil::new"]),
+    ],
+}
+
+PROPS["C11"] = {
+    "level": "model_checking",
+    "functions": ["aquatic_common::access_list::{parse_info_hash, AccessList::allows, AccessListQuery::{update,allows}, update_access_list, create_access_list_cache}", "hex::decode_to_slice"],
+    "bounds": "lines of 0..42 bytes (ASCII any bytes; or one 2-byte UTF-8 char anywhere); lists of 0..2 hashes; all three modes",
+    "outside": "file reading / line splitting in create_from_path (stubbed to an arbitrary Result); SIGUSR1 delivery; real arc-swap internals; HTTP/WS announce gates (glommio files)",
+    "models": ["hashbrown::HashSet -> Vec model", "arc_swap::{ArcSwap,Cache} -> RefCell<Arc<T>> model (load after store returns stored value)",
+               "std::backtrace::Backtrace::capture -> disabled()", "AccessList::create_from_path -> arbitrary Ok(list)/Err"],
+    "assumptions": ["container models behave as documented for the real crates"],
+    "harnesses": [
+        H(KC, "c11::c11_parse_info_hash_ascii", "Ok(v) <=> exactly 40 hex digits of either case, v = reference decoding", "all ASCII byte strings of 0..42 bytes", ["parse_info_hash"], cost=60),
+        H(KC, "c11::c11_parse_info_hash_non_ascii", "any line containing a non-ASCII char is rejected", "lines <=42 bytes with one 2-byte UTF-8 char at any position", ["parse_info_hash"], cost=60),
+        H(KC, "c11::c11_allows_truth_table_n0", "allows == set semantics for 3 modes via list, ArcSwap and cache", "empty list", ["AccessList::allows"]),
+        H(KC, "c11::c11_allows_truth_table_n1", "allows == set semantics", "1 symbolic hash", ["AccessList::allows"]),
+        H(KC, "c11::c11_allows_truth_table_n2", "allows == set semantics", "2 symbolic hashes", ["AccessList::allows"]),
+        H(KC, "c11::c11_update_keeps_old_on_error", "failed reload keeps the same Arc and returns Err; successful reload switches list and caches follow", "1-entry lists, all modes", ["update_access_list", "AccessListQuery::update"]),
     ],
 }
 
